@@ -265,6 +265,20 @@ class Report:
 
 
 # ------------------------------------------------------------------ Apalache
+def apalache_invariant(module, inv="Inv", timeout=900):
+    """checks `inv` in every initial state of spec/<module>.tla with Apalache (symbolic: all values at once)"""
+    d = workdir("apa")
+    try:
+        shutil.copy(os.path.join(tlcrun.SPEC, module + ".tla"), d)
+        cmd = ["timeout", str(timeout), "apalache-mc", "check", "--init=Init", "--inv=" + inv, "--length=0",
+               "--out-dir=" + os.path.join(d, "out"), module + ".tla"]
+        p = subprocess.run(cmd, cwd=d, stdout=subprocess.PIPE, stderr=subprocess.STDOUT, text=True)
+        if "The outcome is: NoError" not in p.stdout:
+            raise ToolError("Apalache did not establish %s.%s:\n%s" % (module, inv, p.stdout[-1500:]))
+    finally:
+        shutil.rmtree(d, ignore_errors=True)
+
+
 def apalache_inductive(module, inv="IndInv", timeout=900):
     """Discharges `inv` of spec/<module>.tla as an inductive invariant with Apalache: Init => inv (length 0) and
     IndInit /\\ Next => inv' (length 1), constants initialised by ConstInit.  A failure is a tool error: it would be a
